@@ -7,4 +7,4 @@ Extraction "model.ml" drv_b2n drv_n2b drv_z_of_n drv_n_of_z drv_nat_of_n drv_n_o
   has_type wf_ty multi_map min_size
   spec_encode encode run_decode decode_res decode_cost current pinned ideal
   field_order tags_distinct
-  c12_prop alloc_budget strict with_bytes map_noncanonical bytes_overrun.
+  c12_prop alloc_budget strict with_bytes map_noncanonical bytes_overrun dirty_nested.
